@@ -118,6 +118,13 @@ CHECKS = [
              "generic generator equals the explicit recursion for every constant/per-step drift x diffusion combination and "
              "reproduces the specialised processes.",
      "design_ref": "DESIGN.md 4/C29"},
+    {"property_id": "C33", "engine": "B", "category": "other", "technique": TECH_B + "; the mapped function of smap/lmap/vmap is an uninterpreted JAX primitive (fresh symbols + congruence)", "note": NOTE_B,
+     "text": "Bounded symbolic verification on the compiler IR: Vector operators and tree_math functions (arithmetic with scalar "
+             "broadcasting, conj/real/imag/abs, vdot, dot/@, norm 1/2/inf, sum/max/min, where, zeros/ones_like, size, stack/unstack/"
+             "mean) on nested dict/tuple/list structures (<= 5 elements, real and complex) equal the same operation on the "
+             "concatenated flat array for ALL leaf values; smap and lmap equal jax.vmap and slice-wise application for an "
+             "ARBITRARY (uninterpreted) mapped function with 1-2 inputs and every in_axes/out_axes in {None,0,1} (batch 3).",
+     "design_ref": "DESIGN.md 4/C33"},
 ]
 
 ALL = [f"C{i:02d}" for i in range(1, 37)]
